@@ -31,7 +31,7 @@ ASSUMPTIONS = [
     "operand normal form of DESIGN.md C03: left operand followed directly (or after one blank) by the relation, "
     "right operand / \\ifodd / \\ifcase number followed by \\relax; dimension pairs are identical expressions or differ by >= 4sp",
     "\\ifx only between character tokens, between parameterless \\def macros with plain-text bodies, and macro vs \\undefined",
-    "names used (ma mb mc xa xb xc xd xq na nb ca cb sa sb, probes p../g..) are undefined in LaTeX and in a fresh plasTeX context; "
+    "names used (ma mb mc xa xb xc xd xq na nb ca cb, switches sa sb fa fb ia foo final found, probes p../g..) are undefined in LaTeX and in a fresh plasTeX context; "
     "no user macro name starts with 'if' except the \\newif switches",
 ]
 
@@ -623,7 +623,10 @@ class Gen(object):
         self.xnames = ["xa", "xb", "xc", "xd"]
         ndef = self.i(1, 3)
         self.xmacs = dict((n, self.pick(XBODIES)) for n in self.xnames[:ndef])
-        self.switches = ["s" + letters(i) for i in range(self.i(0, 2))]
+        # switch names after the `if' prefix also start with f or i (\\iffoo, \\ifia): the setters are
+        # \\footrue/\\iatrue, i.e. exactly the name without its first two letters
+        pool = self.pick([["sa", "sb"], ["fa", "ia"], ["foo", "sb"], ["sa", "final"], ["found", "fb"]])
+        self.switches = pool[:self.i(0, 2)]
         self.macros = []
         for i in range(self.i(0, 3)):
             np_ = self.i(0, 2)
